@@ -9,6 +9,8 @@
 // panic, hang or storage operation; released handles; calls racing with Close; the real file storage.
 // (K) (kseq.go): generated call sequences are executed on the implementation and replayed on the Coq lifecycle
 // machine (Corr/C18Run.v): outcome classes must agree and no mutation may appear where the model has none.
+// Part "api" (api*.go): the totality sweep of the whole exported surface of twelve packages in child processes,
+// evaluated against the totality table (Go copy for (P), Store/ApiTotality.v for (K)).
 package main
 
 import (
@@ -33,7 +35,7 @@ import (
 func debugStack() []byte { return debug.Stack() }
 
 type job struct {
-	Part  string `json:"part"` // hist | kseq | race | fs
+	Part  string `json:"part"` // hist | kseq | race | fs | ... | api (Index = case index of the sweep, -1 = all)
 	Index int    `json:"index"`
 	Sit   int    `json:"situation,omitempty"`
 	Nops  int    `json:"nops,omitempty"`
@@ -41,7 +43,7 @@ type job struct {
 }
 
 func (j job) rng() *vlib.RNG {
-	p := map[string]uint64{"hist": 1, "kseq": 2, "race": 3, "fs": 4, "directed": 5, "fsk": 6, "stor": 7}[j.Part]
+	p := map[string]uint64{"hist": 1, "kseq": 2, "race": 3, "fs": 4, "directed": 5, "fsk": 6, "stor": 7, "api": 8}[j.Part]
 	return vlib.NewRNG(j.Seed*1000003 + p*7919 + uint64(j.Index)*104729)
 }
 
@@ -60,18 +62,20 @@ type knownHit struct {
 }
 
 type collector struct {
-	fcases   []kcase // file-storage model cases (fsmodel.go), not subject to the sequence cap
-	thorough bool
-	mu       sync.Mutex
-	res      *vlib.Result
-	out      string
-	known    []knownHit
-	kcases   []kcase
-	logs     []string
-	notes    []string
-	nviol    int
-	sigs     map[string]int
-	histDone map[int]int
+	fcases    []kcase // file-storage model cases (fsmodel.go), not subject to the sequence cap
+	thorough  bool
+	mu        sync.Mutex
+	res       *vlib.Result
+	out       string
+	known     []knownHit
+	kcases    []kcase
+	logs      []string
+	notes     []string
+	nviol     int
+	sigs      map[string]int
+	histDone  map[int]int
+	apiMatrix map[string]map[string]int
+	apiMisuse []string
 }
 
 var digits = regexp.MustCompile(`[0-9]+`)
@@ -270,6 +274,30 @@ func runJob(c *collector, j job, methods []string, base string) (failed bool) {
 			c.violate("storage contract: "+f, j, detail)
 			failed = true
 		}
+	case "api":
+		// the thorough tier repeats the sweep with other seeds (the random parts of the lattice: garbage for Load, damaged
+		// files, random tables); the (K) cases of the first round are kept
+		reps := 1
+		if c.thorough && j.Index < 0 {
+			reps = 4
+		}
+		for rep := 0; rep < reps; rep++ {
+			ar := apiJob(j.Seed+uint64(rep)*7919, c.thorough, base, j.Index)
+			if rep == 0 {
+				for k, v := range ar.stats {
+					res.Count(k, v)
+				}
+				c.mu.Lock()
+				c.fcases = append(c.fcases, ar.cases...)
+				c.apiMatrix, c.apiMisuse = ar.matrix, ar.misuse
+				c.mu.Unlock()
+			}
+			res.Eval("api", false)
+			for _, f := range ar.fails {
+				c.violate(f.desc, job{Part: "api", Index: f.index, Seed: j.Seed + uint64(rep)*7919}, f.row)
+				failed = true
+			}
+		}
 	case "fs":
 		fails, stats, notes := fileStorageChecks(r, base)
 		for k, v := range stats {
@@ -288,6 +316,10 @@ func runJob(c *collector, j job, methods []string, base string) (failed bool) {
 }
 
 func main() {
+	if spec := os.Getenv("C18_API_CHILD"); spec != "" {
+		apiChild(spec) // one group of the API totality sweep (api.go)
+		return
+	}
 	if dir := os.Getenv("C18_FS_SESSION"); dir != "" {
 		sessionChild(dir) // the live session of sessionFaultChecks (fsmodel.go)
 		return
@@ -358,6 +390,69 @@ func main() {
 		return
 	}
 
+	if strings.Contains(a.Extra, "apionly") { // experiments: the API totality sweep alone, outcome rows on stdout
+		t := time.Now()
+		ar := apiJob(a.Seed, a.Thorough(), base, -1)
+		for _, f := range ar.fails {
+			fmt.Println("FAIL", f.desc)
+		}
+		for _, m := range ar.misuse {
+			fmt.Println("MISUSE", m)
+		}
+		if strings.Contains(a.Extra, "classes") {
+			cl := map[string]map[string]bool{}
+			for _, r := range ar.rows {
+				k := r.Entry + " | " + r.Class
+				if cl[k] == nil {
+					cl[k] = map[string]bool{}
+				}
+				cl[k][r.Out.String()] = true
+			}
+			var ks []string
+			for k := range cl {
+				ks = append(ks, k)
+			}
+			sort.Strings(ks)
+			for _, k := range ks {
+				var o []string
+				for x := range cl[k] {
+					o = append(o, x)
+				}
+				sort.Strings(o)
+				fmt.Println("CLASS", k, "->", strings.Join(o, ","))
+			}
+		}
+		fmt.Println("stats", ar.stats, "matrix", ar.matrix, "wall", time.Since(t))
+		if strings.Contains(a.Extra, "dumpjson") {
+			type ent struct {
+				Classes map[string]map[string]int `json:"classes"`
+			}
+			pk := map[string]map[string]map[string]map[string]int{}
+			for _, r := range ar.rows {
+				p := r.Entry[:strings.IndexByte(r.Entry, '.')]
+				if pk[p] == nil {
+					pk[p] = map[string]map[string]map[string]int{}
+				}
+				if pk[p][r.Entry] == nil {
+					pk[p][r.Entry] = map[string]map[string]int{}
+				}
+				if pk[p][r.Entry][r.Class] == nil {
+					pk[p][r.Entry][r.Class] = map[string]int{}
+				}
+				pk[p][r.Entry][r.Class][r.Out.String()]++
+			}
+			var exc []map[string]string
+			for _, e := range apiExceptions {
+				exc = append(exc, map[string]string{"entry": e.entry, "class": e.class, "allowed": apiMaskString(e.allow), "kind": e.kind, "why": e.why})
+			}
+			b, _ := json.Marshal(map[string]interface{}{"packages": pk, "exceptions": exc, "matrix": ar.matrix})
+			os.WriteFile(filepath.Join(a.Out, "api_dump.json"), b, 0o644)
+		}
+		if strings.Contains(a.Extra, "dumptable") {
+			fmt.Println(apiDumpCoqTable())
+		}
+		return
+	}
 	nh, nk, nr, hops, kops := 80, 128, 96, 500, 40
 	if a.Thorough() {
 		nh, nk, nr, hops, kops = 2500, 6000, 3000, 1200, 80
@@ -426,6 +521,14 @@ func main() {
 	close(ch2)
 	wg.Wait()
 	res.Extra["storage_contract_jobs_wall_s"] = time.Since(t1).Seconds()
+	// the API totality sweep: its own phase (it runs its cases in child processes, in parallel)
+	t2 := time.Now()
+	if os.Getenv("C18_NO_API") == "" {
+		runJob(c, job{Part: "api", Index: -1, Seed: a.Seed}, known, base)
+	}
+	res.Extra["api_sweep_wall_s"] = time.Since(t2).Seconds()
+	res.Extra["api_outcome_matrix (package -> outcome class -> cases)"] = c.apiMatrix
+	res.Extra["api_documented_misuse_observed (entry | argument class | outcome | detail)"] = c.apiMisuse
 	res.Extra["unreleased_iterator_after_close_observations (documented unsafe, not part of the verdict)"] = c.logs
 	res.Extra["file_storage_notes"] = c.notes
 	res.Extra["race_call_kinds_dropped_after_a_known_hang (unfixed tree only)"] = map[string]bool{
